@@ -148,6 +148,13 @@ def _gen_cases(tier, seed):
                    sorted_bonds=str(rng.choice(["none", "none", "none", "topology", "bfs"])),
                    wide=bool(tier == "thorough" and rng.random() < 0.4))
     yield from _exh_cases(tier, seed, n)
+    # two calls on ONE Topology object with an in-place edit in between (state remembered from the first call must not
+    # survive an edit of the topology through its public API)
+    for j in range(60 if tier == "quick" else 1500):
+        rng = common.rng_for("C11hist", seed, j)
+        yield dict(i=10 ** 7 + j, kind="topology-edit-history", seed=common.case_seed(seed, "C11h", j), cell=common.CELL_KINDS[j % len(common.CELL_KINDS)],
+                   order=str(rng.choice(["OHH", "HHO", "HOH"])), n_waters=int(rng.integers(2, 9)), op=str(rng.choice(["whole", "image"])),
+                   edit=str(rng.choice(["insert_front", "insert_middle", "insert_end+bond"])), spread=int(rng.choice([1, 2, 5])))
 
 
 # ------------------------------------------------------------------------------------------------------------ helpers
@@ -224,8 +231,99 @@ def _wrap_pi(d):
 
 
 # ------------------------------------------------------------------------------------------------------------ the case
+def _run_history(case, ctx):
+    import mdtraj as md
+    from mdtraj.core import element as E
+    rng = common.rng_for("C11hcase", case["seed"])
+    nw = case["n_waters"]
+    l, a = common.random_cell(rng, case["cell"], lo=2.5, hi=4.0)
+    top = md.Topology()
+    ch = top.add_chain()
+    wgeom = {"O": np.zeros(3), "H1": np.array([0.0957, 0, 0]), "H2": np.array([-0.024, 0.0927, 0])}
+    names = {"OHH": ["O", "H1", "H2"], "HHO": ["H1", "H2", "O"], "HOH": ["H1", "O", "H2"]}[case["order"]]
+    for w in range(nw):
+        res = top.add_residue("HOH", ch)
+        at = {n: top.add_atom(n, E.oxygen if n == "O" else E.hydrogen, res) for n in names}
+        top.add_bond(at["O"], at["H1"])
+        top.add_bond(at["O"], at["H2"])
+
+    def coords(topology):
+        Bv = common.cell_vectors64(l, a)
+        x = np.zeros((1, topology.n_atoms, 3))
+        centres = {}
+        for at in topology.atoms:
+            r = at.residue.index
+            if r not in centres:
+                centres[r] = rng.uniform(0, 1, 3) @ Bv
+                centres[r] = (centres[r], common.random_rotation(rng))
+            c, R = centres[r]
+            local = wgeom.get(at.name, np.array([0.015, 0.012, 0.0]))  # inserted virtual site sits next to the oxygen
+            x[0, at.index] = c + local @ R.T
+        return x, Bv
+
+    def scattered(topology):
+        x, Bv = coords(topology)
+        K = case["spread"]
+        shift = rng.integers(-K, K + 1, (topology.n_atoms, 3)).astype(np.float64) @ Bv
+        t = md.Trajectory((x + shift[None]).astype(np.float32), topology, unitcell_lengths=l[None].astype(np.float32), unitcell_angles=a[None].astype(np.float32))
+        return t
+
+    def judge(t, label):
+        B = t.unitcell_vectors[0].astype(np.float64)
+        old = t.xyz.astype(np.float64).copy()
+        try:
+            res = t.make_molecules_whole() if case["op"] == "whole" else t.image_molecules(make_whole=True, anchor_molecules=[set(list(t.topology.atoms)[:3])])
+        except Exception as e:
+            ctx.violation("history.bonds", f"history:{label}:raises:{type(e).__name__}", f"{label}: {e!r}")
+            return False
+        new = res.xyz.astype(np.float64)
+        tau = 16 * geom_eps * (np.abs(old).max() + np.abs(new).max() + np.linalg.norm(B, axis=1).max() * (case["spread"] + 2)) + 1e-6
+        d = new[0] - old[0]
+        if case["op"] == "image":
+            d = d - d[:1]
+        resid = np.abs(d @ np.linalg.inv(B) - np.round(d @ np.linalg.inv(B))).max()
+        ctx.check(resid * np.linalg.norm(B, axis=1).max() <= 4 * tau, "history.lattice-move", f"history:{label}:move-is-not-a-lattice-vector",
+                  f"{label}: an atom was moved by a non-lattice vector (fractional residual {resid:.3g})")
+        bad = []
+        for b0, b1 in res.topology.bonds:
+            v = new[0, b1.index] - new[0, b0.index]
+            plain = np.linalg.norm(v)
+            mic = geom.min_image(v, B)[1]
+            if abs(plain - mic) > 4 * tau:
+                bad.append((b0.index, b1.index, float(plain), float(mic)))
+        if bad:
+            ctx.violation("history.bonds", f"history:{label}:bond-not-at-minimum-image",
+                          f"{label} ({case['order']} waters, edit {case['edit']}): {len(bad)} bonded pair(s) not at their minimum-image separation, e.g. (i,j,plain,mic) {bad[0]}")
+            return False
+        ctx.ok("history.bonds", len(list(res.topology.bonds)))
+        return True
+
+    from vlib.oracle import geom
+    geom_eps = geom.EPS32
+    ctx.observe("history_edit", case["edit"])
+    ctx.observe("history_op", case["op"])
+    t1 = scattered(top)
+    if not judge(t1, f"{case['op']}:first-call"):
+        return
+    # in-place edit of the same Topology object
+    for res in list(top.residues):
+        first = res.atom(0).index
+        if case["edit"] == "insert_front":
+            top.insert_atom("MW", E.virtual_site, res, index=first, rindex=0)
+        elif case["edit"] == "insert_middle":
+            top.insert_atom("MW", E.virtual_site, res, index=first + 1, rindex=1)
+        else:
+            mw = top.insert_atom("MW", E.virtual_site, res, index=first + res.n_atoms, rindex=res.n_atoms)
+            o = [x for x in res.atoms if x.name == "O"][0]
+            top.add_bond(o, mw)
+    t2 = scattered(top)
+    judge(t2, f"{case['op']}:second-call-after-{case['edit']}")
+
+
 def run_case(case, ctx):
     import mdtraj as md
+    if case.get("kind") == "topology-edit-history":
+        return _run_history(case, ctx)
     s = c11_mols.build(case)
     t, B, rng = s.traj, s.B, s.rng
     nf, na = t.n_frames, t.n_atoms
